@@ -24,7 +24,7 @@ def prepare(tier, seed):
 
 def units(tier, seed):
     out = []
-    for p in (1, 2, 3):
+    for p in (0, 1, 2, 3):
         out += _g.dag_units("dag", p, 1)
         out += _g.pdag_units("pdag", p, 1)
     out += _g.dag_units("dag", 4, 16)
@@ -114,7 +114,7 @@ def check_pdag(p, code, wide):
                     cands.append(tuple(g))
             cands = sorted(set(cands))
     for g in cands:
-        Gm = np.array(G.pattern_of_dag(p, g))
+        Gm = np.array(G.pattern_of_dag(p, g), dtype=int).reshape(p, p)
         r = _g.call(U.is_consistent_extension, Gm, P.copy())
         ncalls += 1
         want_in = g in Eset
